@@ -1,37 +1,54 @@
 """Translator: pyttb/cp_apr.py -> lean/PyttbModel/Generated/CpAprFormulas.lean.
 
-The source is parsed with `ast` on every run.  Each *anchor* is one statement of the
-source found by its place (function, target) and translated with a small expression
-translator; nothing is guessed: a statement that is missing, duplicated, or uses a
-construct outside the accepted subset is reported as "anchor lost: <name>" and the
-definition is not emitted (so the model, which uses it, no longer builds).
+The source is parsed with `ast` on every run and the solver functions are read through their DATA FLOW
+(harness/translate/flow.py: symbolic execution, small module-level helpers executed in place, every local followed to the
+expression that reaches it).  Each *anchor* is found by its ROLE and translated with a small expression translator;
+nothing is guessed: a value that is missing, ambiguous, or uses a construct outside the accepted subset is reported as
+"anchor lost: <name>" and the definition is not emitted (harness/translate/__init__.py then fills it in from the pinned
+file and the check ties it to the source by correspondence only).
 
-Anchors
-  loglik.normalize   tt_loglikelihood:  Model.normalize(weight_factor=0, normtype=1)
-  loglik.sparse      tt_loglikelihood:  return float(np.sum(vals * np.log(np.sum(A, axis=1))[:, None]) - np.sum(F0))
-  loglik.dense       tt_loglikelihood:  if dX[i, j] == 0: pass / else: f += dX[i, j] * np.log(dM[i, j]);  f -= np.sum(F0)
-  mu.kkt             tt_cp_apr_mu:      kktModeViolations[n] = np.max(np.abs(vectorize_for_mu(np.minimum(A, 1 - Phi[n]))))
-  mu.update          tt_cp_apr_mu:      M.factor_matrices[n] *= Phi[n]
-  row.kkt            tt_cp_apr_pdnr / tt_cp_apr_pqnr: kkt_violation = np.max(np.abs(np.minimum(m_row, grad)))
-  row.grad           pdnr: gradM = (e_vec - phi_row).transpose(); pqnr (calc_grad): grad_row = (ones - phi_row).transpose()
-  ls.trial           tt_linesearch_prowsubprob: model_new = model_old + stepSize * direction
-  ls.project         tt_linesearch_prowsubprob: model_new *= model_new > 0   (exactly twice)
-  ls.fallback        tt_linesearch_prowsubprob: model_new = model_old * phi_row
-  ls.armijo          tt_linesearch_prowsubprob: if f_new <= (f_old + suff_decr * gDotd): break
-  const.*            minDescentTol, smallStepTol, the line-search arguments at the three call
-                     sites (1, 1/2, 10, 1.0e-4), the zero-row fill 1e-8, the inexact inner limit 2
-                     and the divisor 100.0
+Anchors (roles)
+  loglik.normalize   tt_loglikelihood: the statement call `<Model>.normalize(weight_factor=0, normtype=1)`
+  loglik.sparse      tt_loglikelihood: the value returned for sparse data, `float(np.sum(<x> * np.log(<m>)) - np.sum(<factor 0>))`
+                     with x the stored values of the data and m = `np.sum(A, axis=1)`
+  loglik.dense       tt_loglikelihood: the value returned otherwise, `float(<f> - np.sum(<factor 0>))`, f starting at 0 and
+                     increased by `<x> * np.log(<m>)` only where `<x> == 0` does not hold (x, m the [i, j] entries of the
+                     unfolded data / model)
+  mu.update          tt_cp_apr_mu: the in-place product `<factor n> *= <Phi n>`
+  mu.kkt             tt_cp_apr_mu: the value that reaches `kktViolations[...]` of the returned dictionary through
+                     `<kkt per mode>[n] = np.max(<entries>)`; in <entries> the updated factor is `a`, the multiplier `phi`
+  row.kkt            tt_cp_apr_pdnr / tt_cp_apr_pqnr: the same chain; in <entries> the current row (the variable written
+                     back to `<M>.factor_matrices[n][jj, :]` after the inner loop) is `m`, its gradient `g`
+  row.grad           the gradient of the row sub-problem: the values of shape `<ones> - <phi>` found there (pdnr:
+                     `e_vec - phi_row`; pqnr: `np.ones(phi_row.shape) - phi_row`, computed by calc_grad)
+  ls.trial/project   tt_linesearch_prowsubprob: the two projections `<v> *= <v> > 0`; the projected value inside the loop
+  ls.fallback        is the trial point `<model_old> + <step> * <direction>`, the one after it the multiplicative fall-back
+                     `<model_old> * <phi_row>` (parameters by position, the step = the loop-carried value that starts at
+                     the 4th parameter)
+  ls.armijo          the path condition of the loop's only `break`: not <descent direction rejected> and
+                     `<f_new> <= <f_old> + <suff_decr> * <gDotd>` (so the test may sit in the else branch or carry
+                     `not rejected and ...`)
+  const.*            minDescentTol (the bound on `np.sum(<projected trial>)` in the rejection test), smallStepTol (the
+                     bound in the fall-back test), the line-search arguments at the three call sites (1, 1/2, 10, 1.0e-4),
+                     the zero-row fill 1e-8 (written to `<M>.factor_matrices[n][<rows that sum to 0>, 0]`, in the solver
+                     or in a helper it calls), the inexact inner limit 2 and the divisor 100.0
+Doc comments carry the expression that was translated (inputs under fixed names), never a line number.
 """
 from __future__ import annotations
 
 import ast
+import copy
 from fractions import Fraction
 from pathlib import Path
 
 from harness.lib import LEAN, REPO
+from harness.translate import flow
+from harness.translate.flow import Flow, fold, fold_where, ifexp_leaves, plain, simplify, text
 
 PROPS = ["C11"]
 OUT = LEAN / "PyttbModel" / "Generated" / "CpAprFormulas.lean"
+ROOTS = ["cp_apr", "tt_cp_apr_mu", "tt_cp_apr_pdnr", "tt_cp_apr_pqnr", "tt_linesearch_prowsubprob",
+         "tt_loglikelihood", "get_search_dir_pdnr", "get_search_dir_pqnr"]
 
 
 class Lost(Exception):
@@ -42,7 +59,7 @@ class Lost(Exception):
 # expression translator (entry-wise reading of the NumPy expression)
 # ----------------------------------------------------------------------------
 def _strip(node):
-    """Drop pure re-shapings: x[:, None], x.transpose(), x.transpose()[0], vectorize_for_mu(x)."""
+    """Drop pure re-shapings: x[:, None], x.transpose(), x.transpose()[0], x.ravel(), vectorize_for_mu(x)."""
     while True:
         if isinstance(node, ast.Subscript):
             sl = node.slice
@@ -59,7 +76,7 @@ def _strip(node):
                 node = node.value.func.value
                 continue
         if isinstance(node, ast.Call) and isinstance(node.func, ast.Attribute) \
-                and node.func.attr == "transpose" and not node.args and not node.keywords:
+                and node.func.attr in ("transpose", "ravel") and not node.args and not node.keywords:
             node = node.func.value
             continue
         if isinstance(node, ast.Call) and isinstance(node.func, ast.Name) \
@@ -69,24 +86,27 @@ def _strip(node):
         return node
 
 
-def tr(node, leaves, where):
-    """-> Lean expression text.  `leaves` maps ast.unparse(subexpression) to a Lean name."""
+def tr2(node, leaves, where):
+    """-> (Lean expression text, the same expression as Python text over the leaf names, re-shapings dropped).
+    `leaves` maps ast.unparse(subexpression) to a Lean name."""
     node = _strip(node)
     key = ast.unparse(node)
     if key in leaves:
-        return leaves[key]
+        return leaves[key], leaves[key]
 
     def bad(what):
-        raise Lost(f"{where}: unsupported {what}: {key[:60]}")
+        raise Lost(f"{where}: unsupported {what}: {plain(key)[:60]}")
 
     if isinstance(node, ast.Constant) and isinstance(node.value, int) and not isinstance(node.value, bool):
         if node.value in (0, 1):
-            return str(node.value)
+            return str(node.value), str(node.value)
         bad("integer literal")
     if isinstance(node, ast.BinOp):
         ops = {ast.Add: "+", ast.Sub: "-", ast.Mult: "*", ast.Div: "/"}
         if type(node.op) in ops:
-            return f"({tr(node.left, leaves, where)} {ops[type(node.op)]} {tr(node.right, leaves, where)})"
+            (l, lp), (r, rp) = tr2(node.left, leaves, where), tr2(node.right, leaves, where)
+            o = ops[type(node.op)]
+            return f"({l} {o} {r})", f"({lp} {o} {rp})"
         bad("operator")
     if isinstance(node, ast.Call) and isinstance(node.func, ast.Attribute) \
             and isinstance(node.func.value, ast.Name) and node.func.value.id == "np":
@@ -94,21 +114,28 @@ def tr(node, leaves, where):
         args = node.args
         if node.keywords:
             bad("keyword arguments")
+        sub = [tr2(a, leaves, where) for a in args]
         if name in ("abs", "absolute") and len(args) == 1:
-            return f"(abs {tr(args[0], leaves, where)})"
+            return f"(abs {sub[0][0]})", f"np.abs({sub[0][1]})"
         if name == "log" and len(args) == 1:
-            return f"(log {tr(args[0], leaves, where)})"
+            return f"(log {sub[0][0]})", f"np.log({sub[0][1]})"
         if name == "minimum" and len(args) == 2:
-            return f"(minimum {tr(args[0], leaves, where)} {tr(args[1], leaves, where)})"
+            return f"(minimum {sub[0][0]} {sub[1][0]})", f"np.minimum({sub[0][1]}, {sub[1][1]})"
         if name == "maximum" and len(args) == 2:
-            return f"(maximum {tr(args[0], leaves, where)} {tr(args[1], leaves, where)})"
+            return f"(maximum {sub[0][0]} {sub[1][0]})", f"np.maximum({sub[0][1]}, {sub[1][1]})"
         bad(f"call np.{name}")
     if isinstance(node, ast.Compare) and len(node.ops) == 1 and isinstance(node.ops[0], ast.Gt):
         c = node.comparators[0]
         if isinstance(c, ast.Constant) and c.value == 0:
-            return f"(if gt0 {tr(node.left, leaves, where)} then 1 else 0)"
+            x, xp = tr2(node.left, leaves, where)
+            return f"(if gt0 {x} then 1 else 0)", f"({xp} > 0)"
         bad("comparison")
     bad(type(node).__name__)
+
+
+def tr(node, leaves, where):
+    """-> Lean expression text.  `leaves` maps ast.unparse(subexpression) to a Lean name."""
+    return tr2(node, leaves, where)[0]
 
 
 def num(node, where):
@@ -119,7 +146,7 @@ def num(node, where):
         return num(node.left, where) / num(node.right, where)
     if isinstance(node, ast.UnaryOp) and isinstance(node.op, ast.USub):
         return -num(node.operand, where)
-    raise Lost(f"{where}: not a numeric literal: {ast.unparse(node)[:40]}")
+    raise Lost(f"{where}: not a numeric literal: {plain(node)[:40]}")
 
 
 def rat(q: Fraction) -> str:
@@ -127,29 +154,13 @@ def rat(q: Fraction) -> str:
 
 
 # ----------------------------------------------------------------------------
-# statement finders
+# reading context
 # ----------------------------------------------------------------------------
-def walk_stmts(fn):
-    for node in ast.walk(fn):
-        if isinstance(node, ast.stmt):
-            yield node
-
-
 def one(items, where):
     items = list(items)
     if len(items) != 1:
-        raise Lost(f"{where}: expected exactly one such statement, found {len(items)}")
+        raise Lost(f"{where}: expected exactly one, found {len(items)}")
     return items[0]
-
-
-def assigns_to(fn, target_text):
-    return [s for s in walk_stmts(fn) if isinstance(s, ast.Assign) and len(s.targets) == 1
-            and ast.unparse(s.targets[0]) == target_text]
-
-
-def augassigns_to(fn, target_text, op):
-    return [s for s in walk_stmts(fn) if isinstance(s, ast.AugAssign)
-            and ast.unparse(s.target) == target_text and isinstance(s.op, op)]
 
 
 def is_np_call(node, name, nargs=None):
@@ -158,13 +169,69 @@ def is_np_call(node, name, nargs=None):
             and node.func.attr == name and (nargs is None or len(node.args) == nargs))
 
 
+def is_num(node):
+    try:
+        num(node, "")
+        return True
+    except Lost:
+        return False
+
+
+class Ctx:
+    """The functions of cp_apr.py, executed symbolically on demand."""
+
+    def __init__(self, src):
+        self.F = Flow(src, roots=ROOTS)
+        self._r = {}
+        self.exprs = {}       # generated definition -> {"python", "params"} (for the cross-check family)
+
+    def py(self, name, python, params):
+        self.exprs[name] = {"python": python, "params": list(params)}
+
+    def region(self, fname):
+        if fname not in self._r:
+            if fname not in self.F.funcs:
+                raise Lost(f"function {fname} not found")
+            self._r[fname] = self.F.run(fname)
+        return self._r[fname]
+
+    def params(self, fname):
+        a = self.F.funcs[fname].args
+        return [p.arg for p in a.posonlyargs + a.args]
+
+
+def _root_base(node):
+    r = flow.root_name(node)
+    return flow.base(r.id) if r is not None else None
+
+
+def _receiver_base(node):
+    """`X.f(...).a[i]` -> base name of X (through method calls as well)"""
+    while True:
+        if isinstance(node, (ast.Attribute, ast.Subscript)):
+            node = node.value
+        elif isinstance(node, ast.Call) and isinstance(node.func, ast.Attribute):
+            node = node.func.value
+        else:
+            break
+    return flow.base(node.id) if isinstance(node, ast.Name) else None
+
+
+def _sub_n(node, attr="factor_matrices"):
+    """`<X>.factor_matrices[<n>]` -> (X, n) else None"""
+    if (isinstance(node, ast.Subscript) and isinstance(node.value, ast.Attribute) and node.value.attr == attr):
+        return node.value.value, node.slice
+    return None
+
+
 # ----------------------------------------------------------------------------
 # the anchors
 # ----------------------------------------------------------------------------
-def a_loglik_normalize(fns):
-    fn = fns["tt_loglikelihood"]
-    calls = [s.value for s in walk_stmts(fn) if isinstance(s, ast.Expr) and isinstance(s.value, ast.Call)
-             and ast.unparse(s.value.func) == "Model.normalize"]
+def a_loglik_normalize(C):
+    R = C.region("tt_loglikelihood")
+    model = C.params("tt_loglikelihood")[1]
+    calls = [e.value for e in R.entries("call") if isinstance(e.value.func, ast.Attribute)
+             and e.value.func.attr == "normalize" and _root_base(e.value.func.value) == model and not e.rel_pc()]
     c = one(calls, "loglik.normalize")
     kw = {k.arg: k.value for k in c.keywords}
     if c.args or set(kw) != {"weight_factor", "normtype"}:
@@ -176,78 +243,223 @@ def a_loglik_normalize(fns):
             f"def llWeightFactor : Nat := {wf}", f"def llNormType : Nat := {nt}"]
 
 
-def a_loglik_sparse(fns):
-    fn = fns["tt_loglikelihood"]
-    rets = [s for s in walk_stmts(fn) if isinstance(s, ast.Return) and s.value is not None
-            and isinstance(s.value, ast.Call) and ast.unparse(s.value.func) == "float"
-            and len(s.value.args) == 1 and isinstance(s.value.args[0], ast.BinOp)]
-    r = one(rets, "loglik.sparse")
-    e = r.value.args[0]
-    if not isinstance(e.op, ast.Sub) or not is_np_call(e.left, "sum", 1) or not is_np_call(e.right, "sum", 1):
+def _loglik_returns(C):
+    """-> (value returned for sparse data, value returned otherwise)"""
+    R = C.region("tt_loglikelihood")
+    data = C.params("tt_loglikelihood")[0]
+    want = f"isinstance({data}, ttb.sptensor)"
+    sp, other = [], []
+    for pc, v in R.returns:
+        ts = [plain(c) for c in pc]
+        if want in ts:
+            sp.append(v)
+        elif f"not {want}" in ts:
+            other.append(v)
+    return sp, other
+
+
+def _is_factor0_sum(node, model):
+    return (is_np_call(node, "sum", 1) and not node.keywords
+            and plain(node.args[0]) == f"{model}.factor_matrices[0]")
+
+
+def a_loglik_sparse(C):
+    data, model = C.params("tt_loglikelihood")[:2]
+    sp, _ = _loglik_returns(C)
+    r = one(sp, "loglik.sparse")
+    if not (isinstance(r, ast.Call) and plain(r.func) == "float" and len(r.args) == 1 and isinstance(r.args[0], ast.BinOp)):
+        raise Lost("loglik.sparse: the value is not `float(<a> - <b>)`")
+    e = r.args[0]
+    if not isinstance(e.op, ast.Sub) or not is_np_call(e.left, "sum", 1) or e.left.keywords:
         raise Lost("loglik.sparse: not `np.sum(..) - np.sum(..)`")
-    if ast.unparse(e.right.args[0]) != "Model.factor_matrices[0]":
+    if not _is_factor0_sum(e.right, model):
         raise Lost("loglik.sparse: second term is not the sum of factor 0")
-    term = tr(e.left.args[0], {"Data.vals": "x", "np.sum(A, axis=1)": "m"}, "loglik.sparse")
+
+    def pred(n):
+        if plain(n) == f"{data}.vals":
+            return "x"
+        if is_np_call(n, "sum", 1) and [k.arg for k in n.keywords] == ["axis"] and is_num(n.keywords[0].value) \
+                and num(n.keywords[0].value, "") == 1:
+            return "m"
+        return None
+    body = fold_where(e.left.args[0], pred)
+    term, py = tr2(body, {"x": "x", "m": "m"}, "loglik.sparse")
+    C.py("llTermSparse", py, ["x", "m"])
+    C.py("llCombine", "(terms - sumFactor0)", ["terms", "sumFactor0"])
+    shown = text(fold_where(e.left, lambda n: "np.sum(A, axis=1)" if pred(n) == "m" else (f"{data}.vals" if pred(n) == "x" else None)))
     return ["/-- sparse path, one stored entry: the summand of "
-            f"`{ast.unparse(e.left)}` (`x` the stored value, `m = np.sum(A, axis=1)` the model there). -/",
+            f"`{shown}` (`x` the stored value, `m = np.sum(A, axis=1)` the model there). -/",
             f"def llTermSparse [Mul α] (log : α → α) (x m : α) : α := {term}",
             "/-- `float(<sum of the terms> - np.sum(Model.factor_matrices[0]))` -/",
             "def llCombine [Sub α] (terms sumFactor0 : α) : α := terms - sumFactor0"]
 
 
-def a_loglik_dense(fns):
-    fn = fns["tt_loglikelihood"]
-    ifs = [s for s in walk_stmts(fn) if isinstance(s, ast.If) and isinstance(s.test, ast.Compare)
-           and ast.unparse(s.test) == "dX[i, j] == 0"]
-    st = one(ifs, "loglik.dense")
-    if not (len(st.body) == 1 and isinstance(st.body[0], ast.Pass) and len(st.orelse) == 1
-            and isinstance(st.orelse[0], ast.AugAssign) and isinstance(st.orelse[0].op, ast.Add)
-            and ast.unparse(st.orelse[0].target) == "f"):
-        raise Lost("loglik.dense: branch structure changed")
-    term = tr(st.orelse[0].value, {"dX[i, j]": "x", "dM[i, j]": "m"}, "loglik.dense")
-    init = one(assigns_to(fn, "f"), "loglik.dense")
-    if num(init.value, "loglik.dense") != 0:
+def a_loglik_dense(C):
+    C.region("tt_loglikelihood")
+    F = C.F
+    data, model = C.params("tt_loglikelihood")[:2]
+    _, other = _loglik_returns(C)
+    r = one(other, "loglik.dense")
+    ok = (isinstance(r, ast.Call) and plain(r.func) == "float" and len(r.args) == 1 and isinstance(r.args[0], ast.BinOp)
+          and isinstance(r.args[0].op, ast.Sub) and _is_factor0_sum(r.args[0].right, model))
+    if not ok:
+        raise Lost("loglik.dense: the value is not `float(<f> - np.sum(Model.factor_matrices[0]))`")
+    acc = r.args[0].left
+    s = F.sym(acc.id) if isinstance(acc, ast.Name) else None
+    if not s or s["kind"] != "out":
+        raise Lost("loglik.dense: the sum is not accumulated in a loop")
+    outer = F.regions[s["region"]]
+    var = s["var"]
+    init = outer.pre_env.get(var)
+    if init is None or not is_num(init) or num(init, "") != 0:
         raise Lost("loglik.dense: f does not start at 0")
-    sub = one(augassigns_to(fn, "f", ast.Sub), "loglik.dense")
-    if ast.unparse(sub.value) != "np.sum(Model.factor_matrices[0])":
-        raise Lost("loglik.dense: second term is not the sum of factor 0")
-    rets = [s for s in walk_stmts(fn) if isinstance(s, ast.Return) and ast.unparse(s.value) == "float(f)"]
-    one(rets, "loglik.dense")
+    adds = [e for e in outer.entries("aug", deep=True) if e.name == var]
+    every = [e for e in outer.entries(("aug", "assign"), deep=True) if e.name == var]
+    a = one(adds, "loglik.dense")
+    if len(every) != 1 or not isinstance(a.op, ast.Add):
+        raise Lost("loglik.dense: f is changed by something else than one `f += ...`")
+    pc = a.pc[outer.pc0:]
+    pc = [c for c in pc]
+    if len(pc) != 1:
+        raise Lost("loglik.dense: branch structure changed")
+    c = simplify(pc[0])
+    x = None
+    if isinstance(c, ast.UnaryOp) and isinstance(c.op, ast.Not) and isinstance(c.operand, ast.Compare) \
+            and len(c.operand.ops) == 1 and isinstance(c.operand.ops[0], ast.Eq) and is_num(c.operand.comparators[0]) \
+            and num(c.operand.comparators[0], "") == 0:
+        x = c.operand.left
+    elif isinstance(c, ast.Compare) and len(c.ops) == 1 and isinstance(c.ops[0], ast.NotEq) \
+            and is_num(c.comparators[0]) and num(c.comparators[0], "") == 0:
+        x = c.left
+    if x is None or not isinstance(x, ast.Subscript) or _receiver_base(x) != data:
+        raise Lost("loglik.dense: the term is not skipped exactly where the data entry is 0")
+    sl = text(x.slice)
+
+    def pred(n):
+        if text(n) == text(x):
+            return "x"
+        if isinstance(n, ast.Subscript) and text(n.slice) == sl and _receiver_base(n) == model \
+                and plain(n.value) == plain(x.value).replace(data, model):
+            return "m"
+        return None
+    term, py = tr2(fold_where(a.value, pred), {"x": "x", "m": "m"}, "loglik.dense")
+    C.py("llTermDense", f"(0.0 if x == 0 else {py})", ["x", "m"])
+    shown = text(fold_where(a.value, lambda n: {"x": "dX[i, j]", "m": "dM[i, j]"}.get(pred(n))))
     return ["/-- dense path, one cell: `if dX[i, j] == 0: pass` / `else: f += "
-            f"{ast.unparse(st.orelse[0].value)}`, then `f -= np.sum(Model.factor_matrices[0])` "
+            f"{shown}`, then `f -= np.sum(Model.factor_matrices[0])` "
             "(combined by `llCombine`). -/",
             f"def llTermDense [Mul α] [Zero α] (log : α → α) (isZero : α → Bool) (x m : α) : α :=\n"
             f"  if isZero x then 0 else {term}"]
 
 
-def a_mu_kkt(fns):
-    fn = fns["tt_cp_apr_mu"]
-    st = one(assigns_to(fn, "kktModeViolations[n]"), "mu.kkt")
-    if not is_np_call(st.value, "max", 1):
+def _kkt_chain(C, fname):
+    """The entries `<kkt per mode>[n] = <value>` whose array reaches `kktViolations` of the returned dictionary.
+    -> (main loop region, [effect entries])"""
+    R = C.region(fname)
+    ds = {text(d): d for d in flow.find_dict_with(R, ["kktViolations"])}
+    d = one(ds.values(), f"kkt[{fname}]: returned dictionary with \"kktViolations\"")
+    kv = _root_base(flow.dict_get(d, "kktViolations"))
+    main = [L for L in R.loops() if plain(L.iter) == "range(maxiters)" and len(L.targets) == 1]
+    L = one(main, f"kkt[{fname}]: main loop")
+    it_sym = f"{L.targets[0]}{flow.SEP}in{L.id}"
+    tops = [e for e in L.entries("effect") if e.name == kv]
+    t = one(tops, f"kkt[{fname}]: assignment to {kv}[iteration]")
+    if not (isinstance(t.target.slice, ast.Name) and t.target.slice.id == it_sym and is_np_call(t.value, "max", 1)
+            and isinstance(t.value.args[0], ast.Name) and not t.rel_pc()):
+        raise Lost(f"kkt[{fname}]: the violation of a pass is not `np.max(<violations per mode>)`")
+    kmv = flow.base(t.value.args[0].id)
+    effs = [e for e in L.entries(("effect", "augeffect"), deep=True) if e.name == kmv]
+    if not effs or any(e.kind != "effect" for e in effs):
+        raise Lost(f"kkt[{fname}]: the violations per mode are not assigned")
+    return L, effs
+
+
+def _mu_update(C):
+    R = C.region("tt_cp_apr_mu")
+    ups = [e for e in R.entries("augeffect", deep=True) if isinstance(e.op, ast.Mult)
+           and _sub_n(e.target) is not None]
+    return one(ups, "mu.update")
+
+
+def a_mu_kkt(C):
+    _, effs = _kkt_chain(C, "tt_cp_apr_mu")
+    st = one(effs, "mu.kkt")
+    value = C.F.unwrap(st.value)
+    if not is_np_call(value, "max", 1) or value.keywords:
         raise Lost("mu.kkt: not np.max(..)")
-    v = fns.get("vectorize_for_mu")
-    if v is None or not (isinstance(v.body[-1], ast.Return) and ast.unparse(v.body[-1].value) == "matrix.ravel()"):
-        raise Lost("mu.kkt: vectorize_for_mu is not matrix.ravel()")
-    e = tr(st.value.args[0], {"M.factor_matrices[n]": "a", "Phi[n]": "phi"}, "mu.kkt")
-    return [f"/-- entry of the array under `np.max` in `{ast.unparse(st)[:100]}` -/",
+    up = _mu_update(C)
+    leaves = {text(up.target_full): "a", text(up.value): "phi"}
+    e, py = tr2(value.args[0], leaves, "mu.kkt")
+    C.py("kktEntry", py, ["a", "phi"])
+    shown = plain(fold(value, {text(up.target_full): "M.factor_matrices[n]", text(up.value): "Phi[n]"}))
+    return [f"/-- entry of the array under `np.max` in `kktModeViolations[n] = {shown[:100]}` -/",
             "def kktEntry [Sub α] [One α] (abs : α → α) (minimum : α → α → α) (a phi : α) : α := " + e]
 
 
-def a_mu_update(fns):
-    fn = fns["tt_cp_apr_mu"]
-    st = one(augassigns_to(fn, "M.factor_matrices[n]", ast.Mult), "mu.update")
-    e = tr(st.value, {"Phi[n]": "phi"}, "mu.update")
+def a_mu_update(C):
+    up = _mu_update(C)
+    e, py = tr2(up.value, {text(up.value): "phi"}, "mu.update")
+    C.py("muUpdate", f"(a * {py})", ["a", "phi"])
     return ["/-- `M.factor_matrices[n] *= Phi[n]`, one entry -/",
             "def muUpdate [Mul α] (a phi : α) : α := a * " + e]
 
 
-def a_row_kkt(fns):
+def _is_ones(n):
+    return is_np_call(n, "ones")
+
+
+def _grad_shape(v, F):
+    """v (after dropping re-shapings) is `<ones> - <phi>` on every branch -> list of such BinOps, else None"""
+    out = []
+    for _, leaf in ifexp_leaves(v):
+        leaf = _strip(F.unwrap(leaf))
+        if not (isinstance(leaf, ast.BinOp) and isinstance(leaf.op, ast.Sub) and _is_ones(_strip(leaf.left))):
+            return None
+        out.append(leaf)
+    return out
+
+
+def _row_parts(C, fname):
+    """-> (entries of the kkt value translated, [gradient BinOps])"""
+    F = C.F
+    L, effs = _kkt_chain(C, fname)
+    st = one(effs, f"row.kkt[{fname}]")
+    value = F.unwrap(st.value)
+    if not is_np_call(value, "max", 1) or value.keywords:
+        raise Lost(f"row.kkt[{fname}]: not np.max(..)")
+    inner = st.region
+    if inner.kind != "loop":
+        raise Lost(f"row.kkt[{fname}]: not inside the inner iteration")
+    # the row variable: written back to <M>.factor_matrices[n][jj, :] after the inner loop
+    back = [e for e in inner.parent.entries("effect") if isinstance(e.value, ast.Name) and F.sym(e.value.id)
+            and F.sym(e.value.id)["kind"] == "out" and F.sym(e.value.id)["region"] == inner.id
+            and isinstance(e.target, ast.Subscript) and _sub_n(e.target.value) is not None]
+    row = F.sym(one(back, f"row.kkt[{fname}]: write-back of the row").value.id)["var"]
+    env = st.env
+    if row not in env:
+        raise Lost(f"row.kkt[{fname}]: the row variable has no value at the test")
+    leaves = {text(env[row]): "m"}
+    grads = []
+    for k, v in env.items():
+        if k == row:
+            continue
+        g = _grad_shape(v, F)
+        if g:
+            leaves[text(v)] = "g"
+            # the same value with the re-shapings dropped
+            leaves[text(_strip(copy.deepcopy(v)))] = "g"
+            grads += g
+    e, py = tr2(value.args[0], leaves, f"row.kkt[{fname}]")
+    if "g" not in e or "m" not in e:
+        raise Lost(f"row.kkt[{fname}]: the test does not combine the row and its gradient")
+    C.py("rowKktEntry", py, ["m", "g"])
+    return e, grads
+
+
+def a_row_kkt(C):
     out = None
     for name in ("tt_cp_apr_pdnr", "tt_cp_apr_pqnr"):
-        st = one(assigns_to(fns[name], "kkt_violation"), f"row.kkt[{name}]")
-        if not is_np_call(st.value, "max", 1):
-            raise Lost("row.kkt: not np.max(..)")
-        e = tr(st.value.args[0], {"m_row": "m", "gradM": "g"}, "row.kkt")
+        e, _ = _row_parts(C, name)
         if out is not None and e != out:
             raise Lost("row.kkt: pdnr and pqnr differ")
         out = e
@@ -256,106 +468,313 @@ def a_row_kkt(fns):
             "def rowKktEntry (abs : α → α) (minimum : α → α → α) (m g : α) : α := " + out]
 
 
-def a_row_grad(fns):
-    st = one(assigns_to(fns["tt_cp_apr_pdnr"], "gradM"), "row.grad[pdnr]")
-    e1 = tr(st.value, {"e_vec": "1", "phi_row": "phi"}, "row.grad")
-    ev = one(assigns_to(fns["tt_cp_apr_pdnr"], "e_vec"), "row.grad[e_vec]")
-    if ast.unparse(ev.value) != "np.ones((1, rank))":
-        raise Lost("row.grad: e_vec is not a row of ones")
-    st2 = one(assigns_to(fns["calc_grad"], "grad_row"), "row.grad[pqnr]")
-    e2 = tr(st2.value, {"np.ones(phi_row.shape)": "1", "phi_row": "phi"}, "row.grad")
-    if e1 != e2:
+def a_row_grad(C):
+    seen = set()
+    for name in ("tt_cp_apr_pdnr", "tt_cp_apr_pqnr"):
+        _, grads = _row_parts(C, name)
+        if not grads:
+            raise Lost(f"row.grad[{name}]: no gradient of the shape `<ones> - <phi>`")
+        for g in grads:
+            leaves = {text(_strip(g.left)): "1", text(_strip(g.right)): "phi"}
+            lean, py = tr2(g, leaves, f"row.grad[{name}]")
+            seen.add(lean)
+            C.py("rowGrad", py, ["phi"])
+    if len(seen) != 1:
         raise Lost("row.grad: pdnr and pqnr differ")
     return ["/-- gradient entry of the row sub-problem: `(e_vec - phi_row)` (pdnr), "
             "`np.ones(phi_row.shape) - phi_row` (calc_grad) -/",
-            "def rowGrad [Sub α] [One α] (phi : α) : α := " + e1]
+            "def rowGrad [Sub α] [One α] (phi : α) : α := " + seen.pop()]
 
 
-def a_linesearch(fns):
-    fn = fns["tt_linesearch_prowsubprob"]
-    cands = assigns_to(fn, "model_new")
-    trial = one([s for s in cands if isinstance(s.value, ast.BinOp) and isinstance(s.value.op, ast.Add)], "ls.trial")
-    fb = one([s for s in cands if isinstance(s.value, ast.BinOp) and isinstance(s.value.op, ast.Mult)], "ls.fallback")
-    if len(cands) != 2:
-        raise Lost("ls.trial: model_new assigned elsewhere")
-    e_trial = tr(trial.value, {"model_old": "mOld", "stepSize": "step", "direction": "d"}, "ls.trial")
-    e_fb = tr(fb.value, {"model_old": "mOld", "phi_row": "phi"}, "ls.fallback")
-    pr = augassigns_to(fn, "model_new", ast.Mult)
-    if len(pr) != 2:
-        raise Lost(f"ls.project: expected the projection twice, found {len(pr)}")
-    es = {tr(s.value, {"model_new": "m"}, "ls.project") for s in pr}
-    if len(es) != 1:
-        raise Lost("ls.project: the two projections differ")
-    e_pr = es.pop()
-    # each assignment is immediately followed by its projection
-    for body in [n.body for n in ast.walk(fn) if hasattr(n, "body") and isinstance(getattr(n, "body"), list)]:
-        for k, s in enumerate(body):
-            if s is trial or s is fb:
-                if k + 1 >= len(body) or body[k + 1] not in pr:
-                    raise Lost("ls.project: projection does not follow the assignment")
-    ifs = [s for s in walk_stmts(fn) if isinstance(s, ast.If) and isinstance(s.test, ast.Compare)
-           and len(s.test.ops) == 1 and isinstance(s.test.ops[0], ast.LtE) and ast.unparse(s.test.left) == "f_new"]
-    arm = one(ifs, "ls.armijo")
-    if not (len(arm.body) == 1 and isinstance(arm.body[0], ast.Break)):
-        raise Lost("ls.armijo: does not break")
-    e_arm = tr(arm.test.comparators[0], {"f_old": "fOld", "suff_decr": "c", "gDotd": "gd"}, "ls.armijo")
-    return ["/-- `model_new = model_old + stepSize * direction`, one entry -/",
-            "def lsTrial [Add α] [Mul α] (mOld step d : α) : α := " + e_trial,
-            "/-- `model_new *= model_new > 0`, one entry (the comparison yields 1.0 / 0.0) -/",
-            "def project [Mul α] [Zero α] [One α] (gt0 : α → Bool) (m : α) : α := m * " + e_pr,
-            "/-- `model_new = model_old * phi_row`, one entry -/",
-            "def lsFallback [Mul α] (mOld phi : α) : α := " + e_fb,
-            "/-- right-hand side of the sufficient-decrease test `f_new <= (f_old + suff_decr * gDotd)` -/",
-            "def armijoBound [Add α] [Mul α] (fOld c gd : α) : α := " + e_arm]
+def _linesearch(C):
+    """-> dict of the parts of tt_linesearch_prowsubprob; a part that could not be read is stored as the `Lost` under
+    its name(s), so that one lost anchor does not take the others with it"""
+    F = C.F
+    R = C.region("tt_linesearch_prowsubprob")
+    P = C.params("tt_linesearch_prowsubprob")
+    if len(P) != 12:
+        raise Lost("ls: the signature of tt_linesearch_prowsubprob changed")
+    direction, grad, m_old, step_len, step_red, max_steps, suff, _sp, _dr, _pi, phi_row, _dw = P
+    W = one(list(R.loops()), "ls: the step loop")
+    out = {}
+
+    def part(names, f):
+        try:
+            f()
+        except Lost as e:
+            for n in names:
+                out.setdefault(n, e)
+
+    st = {}
+
+    def points():
+        projs = [e for e in R.entries("aug", deep=True) if isinstance(e.op, ast.Mult) and isinstance(e.value, ast.Compare)]
+        for e in projs:
+            v = e.value
+            if not (len(v.ops) == 1 and isinstance(v.ops[0], ast.Gt)
+                    and is_num(v.comparators[0]) and num(v.comparators[0], "") == 0 and text(v.left) == text(e.old)):
+                raise Lost("ls.project: a product with a comparison that is not the projection `v *= v > 0`")
+        inside = [e for e in projs if e.region is W]
+        after = [e for e in projs if e.region is R]
+        if len(projs) != 2 or len(inside) != 1 or len(after) != 1:
+            raise Lost(f"ls.project: expected the projection twice (trial point, fall-back), found {len(projs)}")
+        trial, fb = inside[0], after[0]
+        # the step: the loop-carried value that starts at step_len
+        steps = [n.id for n in ast.walk(trial.old) if isinstance(n, ast.Name) and F.sym(n.id)
+                 and F.sym(n.id)["kind"] == "in" and F.sym(n.id)["region"] == W.id]
+        steps = [sid for sid in set(steps) if plain(W.pre_env.get(F.sym(sid)["var"], ast.Name(id="?"))) == step_len]
+        step = one(steps, "ls.trial: the step length")
+        t_trial, p_trial = tr2(trial.old, {m_old: "mOld", step: "step", direction: "d"}, "ls.trial")
+        t_fb, p_fb = tr2(fb.old, {m_old: "mOld", phi_row: "phi"}, "ls.fallback")
+        es = {tr2(e.value, {text(e.old): "m"}, "ls.project") for e in projs}
+        t_pr, p_pr = one(es, "ls.project: the two projections")
+        C.py("lsTrial", p_trial, ["mOld", "step", "d"])
+        C.py("lsFallback", p_fb, ["mOld", "phi"])
+        C.py("project", f"(m * {p_pr})", ["m"])
+        # the result: (model_new, f_old, f_1, f_new, num_evals)
+        res = R.result
+        if not (isinstance(res, ast.Tuple) and len(res.elts) == 5):
+            raise Lost("ls: the function does not return five values")
+        st["new_trial"], new_fb = text(trial.new), text(fb.new)
+        ok = False
+        r0 = simplify(res.elts[0])
+        if isinstance(r0, ast.IfExp):
+            a, b2 = r0.body, r0.orelse
+            s = F.sym(b2.id) if isinstance(b2, ast.Name) else None
+            ok = text(a) == new_fb and bool(s) and s["kind"] == "out" and s["region"] == W.id \
+                and text(W.end(s["var"]) or b2) == st["new_trial"]
+            st["fb_test"] = r0.test
+        if not ok:
+            raise Lost("ls.project: the returned point is not the projected trial point / the projected fall-back")
+        st["f_old"] = res.elts[1]
+        out.update(trial=t_trial, fallback=t_fb, project=t_pr,
+                   src={"trial": text(fold(trial.old, {m_old: "model_old", step: "stepSize", direction: "direction"})),
+                        "fallback": text(fold(fb.old, {m_old: "model_old", phi_row: "phi_row"})),
+                        "project": "model_new *= model_new > 0"})
+
+    def armijo():
+        if "f_old" not in st:
+            raise Lost("ls.armijo: the trial point was not read")
+        brk = one(W.breaks, "ls.armijo: break")
+        parts = []
+        for c in brk[0]:
+            c = simplify(c)
+            parts += c.values if isinstance(c, ast.BoolOp) and isinstance(c.op, ast.And) else [c]
+        parts = [simplify(c, assume=[d for d in parts if d is not c]) for c in parts]
+        les = [c for c in parts if isinstance(c, ast.Compare) and len(c.ops) == 1 and isinstance(c.ops[0], ast.LtE)]
+        rest = [c for c in parts if c not in les]
+        arm = one(les, "ls.armijo")
+        if len(rest) != 1 or not (isinstance(rest[0], ast.UnaryOp) and isinstance(rest[0].op, ast.Not)):
+            raise Lost("ls.armijo: the test is not guarded by `not <direction rejected>` alone")
+        rej = rest[0].operand
+        # the rejected branch sets f_new = inf
+        infs = [e for e in W.entries("assign") if plain(e.value) == "np.inf" and len(e.rel_pc()) == 1
+                and text(simplify(e.rel_pc()[0])) == text(rej)]
+        if not infs:
+            raise Lost("ls.armijo: the guard is not the test under which the objective is set to inf")
+        if not (isinstance(rej, ast.BoolOp) and isinstance(rej.op, ast.Or) and len(rej.values) == 2):
+            raise Lost("ls.armijo: the rejection test is not `<gDotd> > 0 or np.sum(<point>) < <tol>`")
+        gpos, small = rej.values
+        ok = (isinstance(gpos, ast.Compare) and len(gpos.ops) == 1 and isinstance(gpos.ops[0], ast.Gt)
+              and is_num(gpos.comparators[0]) and num(gpos.comparators[0], "") == 0
+              and isinstance(small, ast.Compare) and len(small.ops) == 1 and isinstance(small.ops[0], ast.Lt)
+              and is_np_call(small.left, "sum", 1) and text(small.left.args[0]) == st["new_trial"])
+        if not ok:
+            raise Lost("ls.armijo: the rejection test is not `<gDotd> > 0 or np.sum(<point>) < <tol>`")
+        gd = gpos.left
+        tol = num(small.comparators[0], "const.minDescentTol")
+        out["armijo"], p_arm = tr2(arm.comparators[0], {text(st["f_old"]): "fOld", suff: "c", text(gd): "gd"}, "ls.armijo")
+        C.py("armijoBound", p_arm, ["fOld", "c", "gd"])
+        out["minDescentTol"] = tol
+
+    def small_step():
+        # the fall-back test: (count >= max_steps and f_new > f_old) or np.sum(model_new) < smallStepTol
+        ft = st.get("fb_test")
+        sm = None
+        if isinstance(ft, ast.BoolOp) and isinstance(ft.op, ast.Or) and len(ft.values) == 2:
+            c = ft.values[1]
+            if isinstance(c, ast.Compare) and len(c.ops) == 1 and isinstance(c.ops[0], ast.Lt) and is_np_call(c.left, "sum", 1):
+                sm = c.comparators[0]
+        if sm is None:
+            raise Lost("const.smallStepTol: the fall-back test is not `(...) or np.sum(<point>) < <tol>`")
+        out["smallStepTol"] = num(sm, "const.smallStepTol")
+
+    part(["trial", "fallback", "project"], points)
+    part(["armijo", "minDescentTol"], armijo)
+    part(["smallStepTol"], small_step)
+    return out
 
 
-def a_consts(fns):
-    out = []
-    ls = fns["tt_linesearch_prowsubprob"]
-    for nm in ("minDescentTol", "smallStepTol"):
-        st = one(assigns_to(ls, nm), f"const.{nm}")
-        out.append(f"def {nm} : Rat := {rat(num(st.value, 'const.' + nm))}")
-    # the line-search arguments at the call sites
+_LS = {}
+
+
+def _ls(C, key):
+    if id(C) not in _LS:
+        _LS.clear()
+        try:
+            _LS[id(C)] = _linesearch(C)
+        except Lost as e:
+            _LS[id(C)] = e
+    r = _LS[id(C)]
+    if isinstance(r, Exception):
+        raise r
+    v = r.get(key)
+    if v is None:
+        raise Lost(f"ls.{key}: not read")
+    if isinstance(v, Exception):
+        raise v
+    return v
+
+
+def a_ls_points(C):
+    src = _ls(C, "src")
+    return [f"/-- `model_new = {src['trial']}`, one entry -/",
+            "def lsTrial [Add α] [Mul α] (mOld step d : α) : α := " + _ls(C, "trial"),
+            f"/-- `{src['project']}`, one entry (the comparison yields 1.0 / 0.0) -/",
+            "def project [Mul α] [Zero α] [One α] (gt0 : α → Bool) (m : α) : α := m * " + _ls(C, "project"),
+            f"/-- `model_new = {src['fallback']}`, one entry -/",
+            "def lsFallback [Mul α] (mOld phi : α) : α := " + _ls(C, "fallback")]
+
+
+def a_ls_armijo(C):
+    return ["/-- right-hand side of the sufficient-decrease test `f_new <= (f_old + suff_decr * gDotd)` -/",
+            "def armijoBound [Add α] [Mul α] (fOld c gd : α) : α := " + _ls(C, "armijo")]
+
+
+def _calls_of(region, fname, F=None):
+    """The distinct calls of `fname` logged in `region` (distinct as expanded expressions), also inside the
+    expressions that were too large to be carried along (`x@v<k>`)."""
+    out = {}
+
+    def walk(v, seen):
+        for n in ast.walk(v):
+            yield n
+            if F is not None and isinstance(n, ast.Name) and n.id not in seen:
+                s = F.sym(n.id)
+                if s and s["kind"] == "v" and s.get("value") is not None:
+                    seen.add(n.id)
+                    yield from walk(s["value"], seen)
+
+    for e in region.entries(None, deep=True):
+        if e.value is None:
+            continue
+        for n in walk(e.value, set()):
+            if isinstance(n, ast.Call) and isinstance(n.func, ast.Name) and n.func.id == fname:
+                out.setdefault(text(n), n)
+    return list(out.values())
+
+
+def a_const_min_descent(C):
+    return [f"def minDescentTol : Rat := {rat(_ls(C, 'minDescentTol'))}"]
+
+
+def a_const_small_step(C):
+    return [f"def smallStepTol : Rat := {rat(_ls(C, 'smallStepTol'))}"]
+
+
+def a_const_ls_args(C):
+    """the line-search arguments at the call sites"""
+    F = C.F
     sites = []
     for name in ("tt_cp_apr_pdnr", "tt_cp_apr_pqnr"):
-        for node in ast.walk(fns[name]):
-            if isinstance(node, ast.Call) and ast.unparse(node.func) == "tt_linesearch_prowsubprob":
-                if len(node.args) != 12 or node.keywords:
-                    raise Lost("const.linesearch: call signature changed")
-                sites.append(tuple(num(a, "const.linesearch") for a in node.args[3:7]))
+        for node in _calls_of(C.region(name), "tt_linesearch_prowsubprob", F):
+            if len(node.args) != 12 or node.keywords:
+                raise Lost("const.linesearch: call signature changed")
+            sites.append(tuple(num(a, "const.linesearch") for a in node.args[3:7]))
     if len(sites) != 3 or len(set(sites)) != 1:
         raise Lost(f"const.linesearch: expected three identical call sites, found {len(sites)}")
     step_len, step_red, max_steps, suff = sites[0]
     if max_steps.denominator != 1:
         raise Lost("const.linesearch: max_steps")
-    out += [f"def lsStepLen : Rat := {rat(step_len)}", f"def lsStepRed : Rat := {rat(step_red)}",
+    return [f"def lsStepLen : Rat := {rat(step_len)}", f"def lsStepRed : Rat := {rat(step_red)}",
             f"def lsMaxSteps : Nat := {max_steps}", f"def lsSuffDecr : Rat := {rat(suff)}"]
-    # zero-row fill
+
+
+def a_const_zero_fill(C):
+    """zero-row fill: <M>.factor_matrices[n][<rows whose sum is 0>, 0] = <number>"""
     fills = set()
     for name in ("tt_cp_apr_pdnr", "tt_cp_apr_pqnr"):
-        st = one(assigns_to(fns[name], "M.factor_matrices[n][tmpIdx, 0]"), f"const.zeroRowFill[{name}]")
+        R = C.region(name)
+        hits = []
+        for e in R.entries("effect", deep=True):
+            t = e.target_full
+            if not (isinstance(t, ast.Subscript) and isinstance(t.slice, ast.Tuple) and len(t.slice.elts) == 2
+                    and is_num(t.slice.elts[1]) and num(t.slice.elts[1], "") == 0 and _sub_n(t.value) is not None
+                    and is_num(e.value)):
+                continue
+            fm = plain(t.value)
+            idx = plain(t.slice.elts[0])
+            if idx != f"np.where(np.sum({fm}, axis=1) == 0)[0]":
+                continue
+            pc = [plain(simplify(c)) for c in e.rel_pc()]
+            if pc != [f"{idx}.size != 0"]:
+                continue
+            hits.append(e)
+        st = one(hits, f"const.zeroRowFill[{name}]")
         fills.add(num(st.value, "const.zeroRowFill"))
     if len(fills) != 1:
         raise Lost("const.zeroRowFill: pdnr and pqnr differ")
-    out.append(f"def zeroRowFill : Rat := {rat(fills.pop())}")
-    pd = fns["tt_cp_apr_pdnr"]
-    im = [s for s in assigns_to(pd, "innerIterMaximum") if isinstance(s.value, ast.Constant)]
-    st = one(im, "const.inexactInner")
-    out.append(f"def inexactInner : Nat := {num(st.value, 'const.inexactInner')}")
-    iff = [s for s in walk_stmts(pd) if isinstance(s, ast.If) and ast.unparse(s.test) == "inexact and iteration == 1"]
-    one(iff, "const.inexactIteration")
-    out.append("def inexactIteration : Nat := 1")
-    st = one(assigns_to(pd, "rowsubprobStopTol")[1:], "const.inexactDiv")
+    return [f"def zeroRowFill : Rat := {rat(fills.pop())}"]
+
+
+def _pdnr_main(C):
+    R = C.region("tt_cp_apr_pdnr")
+    return one([x for x in R.loops() if plain(x.iter) == "range(maxiters)" and len(x.targets) == 1],
+               "const.inexact: main loop of tt_cp_apr_pdnr")
+
+
+def a_const_inexact_inner(C):
+    """inexact inner limit: the bound of the inner iteration that contains the line search"""
+    F = C.F
+    main = _pdnr_main(C)
+    it_sym = f"{main.targets[0]}{flow.SEP}in{main.id}"
+    inner = [x for x in main.loops(deep=True) if _calls_of(x, "tt_linesearch_prowsubprob", F)
+             and not any(_calls_of(y, "tt_linesearch_prowsubprob", F) for y in x.loops(deep=True))]
+    I = one(inner, "const.inexactInner: inner iteration")
+    it = I.iter
+    ok = (isinstance(it, ast.Call) and plain(it.func) == "range" and len(it.args) == 1 and isinstance(it.args[0], ast.IfExp))
+    if not ok:
+        raise Lost("const.inexactInner: the inner limit is not chosen by a test")
+    ch = it.args[0]
+    t = ch.test
+    ok = (isinstance(t, ast.BoolOp) and isinstance(t.op, ast.And) and len(t.values) == 2 and plain(t.values[0]) == "inexact"
+          and isinstance(t.values[1], ast.Compare) and len(t.values[1].ops) == 1 and isinstance(t.values[1].ops[0], ast.Eq)
+          and text(t.values[1].left) == it_sym and plain(ch.orelse) == "maxinneriters")
+    if not ok:
+        raise Lost("const.inexactIteration: the test is not `inexact and iteration == <int>`")
+    lim, which = num(ch.body, "const.inexactInner"), num(t.values[1].comparators[0], "const.inexactIteration")
+    if lim.denominator != 1 or which.denominator != 1:
+        raise Lost("const.inexactInner: not an integer")
+    return [f"def inexactInner : Nat := {lim}", f"def inexactIteration : Nat := {which}"]
+
+
+def a_const_inexact_div(C):
+    """divisor of the inexact tolerance: <tol> = np.maximum(stoptol, <kkt of the pass>) / <number> under `if inexact`"""
+    main = _pdnr_main(C)
+    _kkt_chain(C, "tt_cp_apr_pdnr")   # the violation of the pass must have been stored by then
+    divs = []
+    for e in main.entries("assign"):
+        v = e.value
+        if isinstance(v, ast.BinOp) and isinstance(v.op, ast.Div) and is_np_call(v.left, "maximum", 2) and is_num(v.right):
+            divs.append(e)
+    st = one(divs, "const.inexactDiv")
     v = st.value
-    if not (isinstance(v, ast.BinOp) and isinstance(v.op, ast.Div)
-            and ast.unparse(v.left) == "np.maximum(stoptol, kktViolations[iteration])"):
+    kv = plain(v.left.args[1])
+    if not (plain(v.left.args[0]) == "stoptol" and kv == f"kktViolations[{main.targets[0]}]"
+            and [plain(c) for c in st.rel_pc()] == ["inexact"]):
         raise Lost("const.inexactDiv: formula changed")
-    out.append(f"def inexactDiv : Rat := {rat(num(v.right, 'const.inexactDiv'))}")
-    return ["/-! constants read from the source (decimal value of the literal) -/"] + out
+    return [f"def inexactDiv : Rat := {rat(num(v.right, 'const.inexactDiv'))}"]
 
 
-ANCHORS = [a_loglik_normalize, a_loglik_sparse, a_loglik_dense, a_mu_kkt, a_mu_update, a_row_kkt, a_row_grad,
-           a_linesearch, a_consts]
+def a_const_header(C):
+    return ["/-! constants read from the source (decimal value of the literal) -/"]
+
+
+#: (anchor, followed by an empty line in the generated file)
+ANCHORS = [(a_loglik_normalize, True), (a_loglik_sparse, True), (a_loglik_dense, True), (a_mu_kkt, True),
+           (a_mu_update, True), (a_row_kkt, True), (a_row_grad, True), (a_ls_points, False), (a_ls_armijo, True), (a_const_header, False),
+           (a_const_min_descent, False), (a_const_small_step, False), (a_const_ls_args, False), (a_const_zero_fill, False),
+           (a_const_inexact_inner, False), (a_const_inexact_div, False)]
 
 HEADER = """/-
 GENERATED by harness/translate/gen_cpapr.py from pyttb/cp_apr.py — do not edit.
@@ -368,33 +787,54 @@ variable {α : Type}
 """
 
 
-def run(prop, info):
+def build():
+    """-> (lean text | None, lost anchors, description)"""
     lost = []
     try:
         src = (Path(REPO) / "pyttb" / "cp_apr.py").read_text()
-        mod = ast.parse(src)
+        C = Ctx(src)
     except Exception as e:  # noqa: BLE001
-        return [f"cp_apr.py unreadable: {e}"]
-    fns = {f.name: f for f in mod.body if isinstance(f, ast.FunctionDef)}
+        return None, [f"cp_apr.py unreadable: {e}"], {}
     body = []
-    for a in ANCHORS:
+    for a, gap in ANCHORS:
         try:
-            body += a(fns) + [""]
+            body += a(C) + ([""] if gap else [])
         except Lost as e:
             lost.append(str(e))
         except KeyError as e:
             lost.append(f"{a.__name__[2:]}: function {e} not found")
         except Exception as e:  # noqa: BLE001
             lost.append(f"{a.__name__[2:]}: {type(e).__name__}: {e}")
-    text = HEADER + "\n" + "\n".join(body) + "end Pyttb.CpApr.Gen\n"
-    OUT.parent.mkdir(parents=True, exist_ok=True)
-    if not OUT.exists() or OUT.read_text() != text:
-        OUT.write_text(text)
-    info.setdefault("translators", {})["gen_cpapr"] = {"anchors": len(ANCHORS), "lost": list(lost)}
+    lost = list(dict.fromkeys(lost))
+    text_ = HEADER + "\n" + "\n".join(body) + "\nend Pyttb.CpApr.Gen\n"
+    # an expression is offered for cross-checking only if its definition was emitted
+    emitted = "\n".join(body)
+    exprs = {k: v for k, v in C.exprs.items() if f"def {k} " in emitted}
+    return text_, lost, {"anchors": len(ANCHORS), "inlined_helpers": list(C.F.inlined), "expressions": exprs}
+
+
+def formulas():
+    """Python expressions (over the parameter names, re-shapings dropped) behind the generated definitions, for the
+    cross-check family: {definition: {"python", "params"}}, lost anchors."""
+    _, lost, desc = build()
+    return desc.get("expressions", {}), lost
+
+
+def run(prop, info):
+    text_, lost, desc = build()
+    if text_ is None:
+        # the source could not be read at all: the pinned definitions (never a stale file of another tree)
+        pin = Path(__file__).parent / "pinned" / OUT.name
+        text_ = pin.read_text() if pin.exists() else None
+    if text_ is not None:
+        OUT.parent.mkdir(parents=True, exist_ok=True)
+        if not OUT.exists() or OUT.read_text() != text_:
+            OUT.write_text(text_)
+    info.setdefault("translators", {})["gen_cpapr"] = {"lost": list(lost), **desc}
     return lost
 
 
 if __name__ == "__main__":
-    i = {}
-    print(run("C11", i), i)
-    print(OUT.read_text())
+    t_, l_, _ = build()
+    print(t_)
+    print("lost:", l_)
